@@ -20,6 +20,11 @@ else
   trap 'git -C /repo worktree remove --force "$wt" >/dev/null 2>&1' EXIT
   git -C "$wt" apply "$patch" || { echo "patch does not apply"; exit 2; }
   export STONE_REPO="$wt"
+  # a private copy of the Lean project (with its build output): the generated tables of the changed tree must not
+  # replace those of /repo under a check that runs at the same time
+  lc="/tmp/seedlean-$id-$$"
+  cp -a "$here/lean" "$lc" && export VERIF_LEAN_DIR="$lc"
+  trap 'git -C /repo worktree remove --force "$wt" >/dev/null 2>&1; rm -rf "$lc"' EXIT
 fi
 for c in "$@"; do
   out=$("$here/check" "$c" --tier "${TIER:-quick}" 2>&1)
